@@ -21,8 +21,8 @@ func init() {
 		Doc: "every function of the logical plan that decides equality of two label matchers by comparing their Value fields also compares their Type (and Name): a matcher is identified by (type, name, value)"})
 	register(&Rule{ID: "R-PUSHDOWN", Min: 8, Run: rulePushdown,
 		Doc: "traverseBottomUp continues (returns something other than the constant true) only with the verdict of the transform callback or of a recursive traversal: node kinds it does not know (literals, subqueries, ...) stop the push-down, so a parent is never distributed on the strength of an unexamined child"})
-	register(&Rule{ID: "R-SHARDCOPY", Min: 1, Run: ruleShardCopy,
-		Doc: "elements of a []SignedSeries are written only through a slice allocated in the same function (make/append onto nil or a fresh value): the series list cached in a selector is shared by all shards and by filtered selectors and is never renumbered in place"})
+	register(&Rule{ID: "R-SHARDCOPY", Min: 4, Run: ruleShardCopy,
+		Doc: "elements of a []SignedSeries are written - by an element store or by an append into spare capacity - only through a slice allocated in the same function (make/append onto nil or a fresh value) or the receiver's own list while it is being built, and a function that is given a series list hands out a copy, never the list itself: the series list cached in a selector is shared by all shards and by filtered selectors and is never renumbered in place"})
 	register(&Rule{ID: "R-DEFERORDER", Min: 2, Run: ruleDeferOrder,
 		Doc: "where a goroutine both closes a channel by defer and reports a recovered panic by sending on that channel, the close is registered first (it runs last): the report is never sent on a closed channel"})
 	register(&Rule{ID: "R-CANCELEARLY", Min: 1, Run: ruleCancelEarly,
@@ -57,6 +57,12 @@ func init() {
 		New: "\tresultSeries, err := q.Query.exec.Series(ctx)\n\tif err != nil {\n\t\treturn newErrResult(ret, err)\n\t}\n\tq.cancelMtx.Lock()\n\tq.cancel = cancel\n\tq.cancelMtx.Unlock()\n", Expect: "Exec"})
 	mutant(Mutant{Rule: "R-CHANCAP", Name: "binary-errchan-unbuffered", File: "execution/binary/vector.go",
 		Old: "var errChan = make(chan error, 1)", New: "var errChan = make(chan error)", Expect: "initOutputs"})
+	mutant(Mutant{Rule: "R-SHARDCOPY", Name: "filter-compacts-the-shared-list", File: "execution/storage/filtered_selector.go",
+		Old: "\tf.series = make([]SignedSeries, 0, len(series))\n", New: "\tf.series = series[:0]\n", Expect: "appends to a series list"})
+	mutant(Mutant{Rule: "R-SHARDCOPY", Name: "single-shard-gets-the-cached-list", File: "execution/storage/series_selector.go",
+		Old: "\tstart := index * len(series) / numShards\n", New: "\tif numShards == 1 {\n\t\treturn series\n\t}\n\tstart := index * len(series) / numShards\n", Expect: "hands out a series list of its own"})
+	mutant(Mutant{Rule: "R-CHANCAP", Name: "one-slot-for-all-operands", File: "execution/exchange/coalesce.go",
+		Old: "\terrChan := make(errorChan, len(c.operators))\n", New: "\terrChan := make(errorChan, 1)\n", Expect: "has room for every sender"})
 	mutant(Mutant{Rule: "R-CHANCAP", Name: "worker-output-unbuffered", File: "worker/worker.go",
 		Old: "output := make(chan model.StepVector, 1)", New: "output := make(chan model.StepVector)", Expect: "worker channel"})
 	mutant(Mutant{Rule: "R-ERRPROP", Name: "once-closure-shadows-err", File: "execution/step_invariant/step_invariant.go",
@@ -67,6 +73,8 @@ func init() {
 		Old: "\twriteInt64(sb, mint)\n", New: "", Expect: "hashMatchers"})
 	mutant(Mutant{Rule: "R-SELKEY", Name: "matcher-type-not-hashed", File: "execution/storage/pool.go",
 		Old: "\twriteString(sb, strconv.Itoa(int(m.Type)))\n", New: "\t_ = strconv.Itoa\n", Expect: "hashMatchers"})
+	mutant(Mutant{Rule: "R-TSTAMP", Name: "no-result-as-zero-sample", File: "execution/function/functions.go",
+		Old: "\t\"irate\": func(f FunctionArgs) promql.Sample {\n\t\tif len(f.Points) < 2 {\n\t\t\treturn InvalidSample\n", New: "\t\"irate\": func(f FunctionArgs) promql.Sample {\n\t\tif len(f.Points) < 2 {\n\t\t\treturn promql.Sample{}\n", Expect: "irate"})
 	mutant(Mutant{Rule: "R-TSTAMP", Name: "last-over-time-raw-point", File: "execution/function/functions.go",
 		Old: "\t\t\t\tT: f.StepTime,\n\t\t\t\tV: f.Points[len(f.Points)-1].V,", New: "\t\t\t\tT: f.Points[len(f.Points)-1].T,\n\t\t\t\tV: f.Points[len(f.Points)-1].V,", Expect: "last_over_time"})
 }
@@ -76,26 +84,13 @@ func init() {
 func ruleDupBook(p *core.Program) []core.Obligation {
 	const rule = "R-DUPBOOK"
 	var obs []core.Obligation
-	fn := p.Func("execution/binary", "table.execBinaryOperation")
-	if fn == nil {
-		return []core.Obligation{core.Ob(rule, "binary.table.execBinaryOperation", "-", "", core.Lost, "not found")}
+	sp := p.SSAPkg("execution/binary")
+	if sp == nil {
+		return []core.Obligation{core.Ob(rule, "package execution/binary", "-", "", core.Lost, "not found")}
 	}
-	// fields read by the duplicate tests: loads of outputSample fields compared for equality with a step timestamp
-	core.EachInstr(fn, func(b *ssa.BasicBlock, i int, ins ssa.Instruction) {
-		st, ok := ins.(*ssa.Store)
-		if !ok {
-			return
-		}
-		n, f, _, ok := core.FieldRef(st.Addr)
-		if !ok || n == nil || n.Obj().Name() != "outputSample" {
-			return
-		}
-		if f != "lhT" && f != "rhT" && f != "lhSampleID" && f != "rhSampleID" {
-			return
-		}
-		key := "execBinaryOperation records " + f
+	dependsOnOperation := func(conds []ssa.Value) bool {
 		dep := false
-		for _, c := range controllingConds(st) {
+		for _, c := range conds {
 			core.BackSlice(c, func(x ssa.Value) bool {
 				if call, ok := x.(*ssa.Call); ok && !call.Call.IsInvoke() && call.Call.StaticCallee() == nil {
 					if core.TypeIs(call.Call.Value.Type(), core.Module+"/execution/binary", "operation") {
@@ -105,12 +100,54 @@ func ruleDupBook(p *core.Program) []core.Obligation {
 				return true
 			})
 		}
-		if dep {
-			obs = append(obs, core.Ob(rule, key, p.Pos(st.Pos()), core.FuncName(fn), core.Violated, "the tag is only recorded when the comparison keeps the sample: a second series of the same match group is not detected as a duplicate when the first one was filtered out, and the query succeeds where the reference fails"))
-		} else {
-			obs = append(obs, core.Ob(rule, key, p.Pos(st.Pos()), core.FuncName(fn), core.Held, "recorded independently of the operation's keep result"))
+		return dep
+	}
+	// the tags are recorded by the join of one step (execBinaryOperation and the helpers it is split into)
+	for _, fn := range p.Funcs {
+		if fn.Pkg != sp {
+			continue
 		}
-	})
+		f := fn
+		core.EachInstr(fn, func(b *ssa.BasicBlock, i int, ins ssa.Instruction) {
+			st, ok := ins.(*ssa.Store)
+			if !ok {
+				return
+			}
+			n, fld, _, ok := core.FieldRef(st.Addr)
+			if !ok || n == nil || n.Obj().Name() != "outputSample" {
+				return
+			}
+			if fld != "lhT" && fld != "rhT" && fld != "lhSampleID" && fld != "rhSampleID" {
+				return
+			}
+			if c, isConst := st.Val.(*ssa.Const); isConst && c.Value != nil && c.Value.String() == "-1" {
+				return // the initial "no sample seen" value written when the table is built
+			}
+			key := "the join records " + fld
+			conds := controllingConds(st)
+			// a helper: the conditions under which it is called count too
+			for _, cs := range p.CallSitesOf(f) {
+				if cs == nil {
+					continue
+				}
+				for _, caller := range p.Funcs {
+					if caller.Pkg != sp {
+						continue
+					}
+					core.EachInstr(caller, func(_ *ssa.BasicBlock, _ int, x ssa.Instruction) {
+						if core.CallCommon(x) == cs {
+							conds = append(conds, controllingConds(x)...)
+						}
+					})
+				}
+			}
+			if dependsOnOperation(conds) {
+				obs = append(obs, core.Ob(rule, key, p.Pos(st.Pos()), core.FuncName(f), core.Violated, "the tag is only recorded when the comparison keeps the sample: a second series of the same match group is not detected as a duplicate when the first one was filtered out, and the query succeeds where the reference fails"))
+			} else {
+				obs = append(obs, core.Ob(rule, key, p.Pos(st.Pos()), core.FuncName(f), core.Held, "recorded independently of the operation's keep result"))
+			}
+		})
+	}
 	return obs
 }
 
@@ -328,6 +365,90 @@ func ruleShardCopy(p *core.Program) []core.Obligation {
 				obs = append(obs, core.Ob(rule, key, p.Pos(st.Pos()), core.FuncName(fn), core.Violated, "an element of a series list that was not allocated here is overwritten: the list cached in the selector is shared by all shards (and by filtered selectors over the same select), which renumber and read it concurrently"))
 			}
 		})
+		// an append writes elements too (into the spare capacity of its base): the in-place filter idiom
+		// `out := list[:0]; out = append(out, ...)` overwrites the list it filters
+		f := fn
+		core.EachInstr(fn, func(b *ssa.BasicBlock, i int, ins ssa.Instruction) {
+			c, ok := ins.(*ssa.Call)
+			if !ok {
+				return
+			}
+			if bi, ok := c.Call.Value.(*ssa.Builtin); !ok || bi.Name() != "append" || !isSignedSeriesSlice(c.Type()) {
+				return
+			}
+			k++
+			key := fmt.Sprintf("%s appends to a series list #%d", core.FuncName(f), k)
+			// the owner growing its own list: the base is a field of the receiver into which this function
+			// stores nothing but such appends (and fresh slices)
+			if ld, ok := c.Call.Args[0].(*ssa.UnOp); ok && ld.Op == token.MUL {
+				rooted := func(v ssa.Value) bool { // a field of the receiver, possibly of a struct embedded in it
+					for d := 0; d < 4; d++ {
+						x, ok := v.(*ssa.FieldAddr)
+						if !ok {
+							return false
+						}
+						if len(f.Params) > 0 && x.X == ssa.Value(f.Params[0]) {
+							return true
+						}
+						v = x.X
+					}
+					return false
+				}
+				if fa, ok := ld.X.(*ssa.FieldAddr); ok && f.Signature.Recv() != nil && rooted(fa) {
+					own := true
+					core.EachInstr(f, func(_ *ssa.BasicBlock, _ int, x ssa.Instruction) {
+						st, ok := x.(*ssa.Store)
+						if !ok || !core.SameExpr(st.Addr, fa) {
+							return
+						}
+						if ac, isCall := st.Val.(*ssa.Call); isCall {
+							if bi, ok := ac.Call.Value.(*ssa.Builtin); ok && bi.Name() == "append" && core.SameExpr(ac.Call.Args[0], ld) {
+								return
+							}
+						}
+						if !freshSlice(st.Val, map[ssa.Value]bool{}) {
+							own = false
+						}
+					})
+					if own {
+						obs = append(obs, core.Ob(rule, key, p.Pos(c.Pos()), core.FuncName(f), core.Held, "the receiver grows its own list"))
+						return
+					}
+				}
+			}
+			if freshSlice(c.Call.Args[0], map[ssa.Value]bool{}) {
+				obs = append(obs, core.Ob(rule, key, p.Pos(c.Pos()), core.FuncName(f), core.Held, "the base was allocated in this function"))
+			} else {
+				obs = append(obs, core.Ob(rule, key, p.Pos(c.Pos()), core.FuncName(f), core.Violated, "the base of the append is a series list that was not allocated here (a list handed out by a selector, re-sliced to length 0): the appended elements overwrite the list that is shared with the other users of the pooled selector"))
+			}
+		})
+		// a series list that is handed out (returned) is the function's own: a copy, never the cached list
+		if fn.Parent() == nil && fn.Signature.Results().Len() > 0 && isSignedSeriesSlice(fn.Signature.Results().At(0).Type()) {
+			takes := false
+			for _, prm := range fn.Params {
+				if isSignedSeriesSlice(prm.Type()) {
+					takes = true
+				}
+			}
+			if takes {
+				key := fmt.Sprintf("%s hands out a series list of its own", core.FuncName(fn))
+				bad := ""
+				core.EachInstr(fn, func(rb *ssa.BasicBlock, _ int, ins ssa.Instruction) {
+					ret, ok := ins.(*ssa.Return)
+					if !ok || rb == fn.Recover {
+						return
+					}
+					if !freshSlice(ret.Results[0], map[ssa.Value]bool{}) {
+						bad = p.Pos(ret.Pos())
+					}
+				})
+				if bad != "" {
+					obs = append(obs, core.Ob(rule, key, bad, core.FuncName(fn), core.Violated, "a path returns the list it was given (or a part of it) instead of a copy: the caller - a shard, or a filtered selector - owns what it gets and renumbers or compacts it, which rewrites the list cached in the pooled selector"))
+				} else {
+					obs = append(obs, core.Ob(rule, key, p.Pos(fn.Pos()), core.FuncName(fn), core.Held, "every return is a slice allocated in the function"))
+				}
+			}
+		}
 	}
 	return obs
 }
@@ -579,9 +700,166 @@ func ruleChanCap(p *core.Program) []core.Obligation {
 			} else {
 				obs = append(obs, core.Ob(rule, key, p.Pos(mk.Pos()), core.FuncName(fn), core.Held, "created with a capacity"))
 			}
+			// room for every sender: goroutines started in a loop over a collection send before they are
+			// joined (the channel is read after Wait()), so the capacity is the length of that collection
+			if !types.Identical(ch.Elem(), errT) {
+				return
+			}
+			f := fn
+			core.EachInstr(fn, func(gb *ssa.BasicBlock, _ int, gi ssa.Instruction) {
+				g, ok := gi.(*ssa.Go)
+				if !ok || !goroutineSendsOn(g, mk) {
+					return
+				}
+				bound := loopBoundLen(f, gb)
+				if bound == nil {
+					return // one goroutine per execution of the statement: any capacity >= 1 has room for it
+				}
+				key2 := fmt.Sprintf("%s error channel #%d has room for every sender", core.FuncName(f), k)
+				size := mk.Size
+				if cv, ok := size.(*ssa.Convert); ok {
+					size = cv.X
+				}
+				if sc, ok := size.(*ssa.Call); ok {
+					if bi, ok := sc.Call.Value.(*ssa.Builtin); ok && bi.Name() == "len" && core.SameExpr(sc.Call.Args[0], bound) {
+						obs = append(obs, core.Ob(rule, key2, p.Pos(mk.Pos()), core.FuncName(f), core.Held, "capacity is the length of the collection the senders are started from"))
+						return
+					}
+				}
+				obs = append(obs, core.Ob(rule, key2, p.Pos(mk.Pos()), core.FuncName(f), core.Violated, "the senders are started in a loop (one per element) and send before they are joined, but the capacity is not the length of that collection: when more of them fail than the channel holds (two remote engines, two storage errors, a cancellation that hits several operands) the next sender blocks for ever, Wait() never returns and Exec hangs"))
+			})
 		})
 	}
 	return obs
+}
+
+// goroutineSendsOn: the goroutine started by g (a closure capturing the channel, or a function that is
+// handed it) sends on the channel made by mk, in its body or in a closure of its body (a deferred recover).
+func goroutineSendsOn(g *ssa.Go, mk *ssa.MakeChan) bool {
+	var entry *ssa.Function
+	var chanIn func(f *ssa.Function) map[ssa.Value]bool
+	roots := map[ssa.Value]bool{}
+	if mc, ok := g.Call.Value.(*ssa.MakeClosure); ok {
+		entry, _ = mc.Fn.(*ssa.Function)
+		if entry == nil {
+			return false
+		}
+		for i, b := range mc.Bindings {
+			if chanFrom(b, mk) && i < len(entry.FreeVars) {
+				roots[entry.FreeVars[i]] = true
+			}
+		}
+	} else if entry = g.Call.StaticCallee(); entry != nil {
+		for i, a := range g.Call.Args {
+			if chanFrom(a, mk) && i < len(entry.Params) {
+				roots[entry.Params[i]] = true
+			}
+		}
+	}
+	if entry == nil || entry.Blocks == nil || len(roots) == 0 {
+		return false
+	}
+	_ = chanIn
+	found := false
+	var scan func(f *ssa.Function, rs map[ssa.Value]bool, depth int)
+	scan = func(f *ssa.Function, rs map[ssa.Value]bool, depth int) {
+		if depth > 3 || found {
+			return
+		}
+		isRoot := func(v ssa.Value) bool {
+			for d := 0; d < 4; d++ {
+				if rs[v] {
+					return true
+				}
+				switch x := v.(type) {
+				case *ssa.UnOp:
+					v = x.X
+				case *ssa.ChangeType:
+					v = x.X
+				default:
+					return false
+				}
+			}
+			return false
+		}
+		core.EachInstr(f, func(_ *ssa.BasicBlock, _ int, ins ssa.Instruction) {
+			switch x := ins.(type) {
+			case *ssa.Send:
+				if isRoot(x.Chan) {
+					found = true
+				}
+			case *ssa.Store:
+				// the parameter spilled into a local that a closure captures
+				if isRoot(x.Val) {
+					rs[x.Addr] = true
+				}
+			case *ssa.MakeClosure:
+				cf, ok := x.Fn.(*ssa.Function)
+				if !ok {
+					return
+				}
+				sub := map[ssa.Value]bool{}
+				for i, b := range x.Bindings {
+					if isRoot(b) && i < len(cf.FreeVars) {
+						sub[cf.FreeVars[i]] = true
+					}
+				}
+				if len(sub) > 0 {
+					scan(cf, sub, depth+1)
+				}
+			}
+		})
+	}
+	scan(entry, roots, 0)
+	return found
+}
+
+// chanFrom: v is the channel made by mk (directly, converted to a directional type, or the local it is kept in).
+func chanFrom(v ssa.Value, mk *ssa.MakeChan) bool {
+	for d := 0; d < 4; d++ {
+		if v == ssa.Value(mk) {
+			return true
+		}
+		switch x := v.(type) {
+		case *ssa.ChangeType:
+			v = x.X
+		case *ssa.UnOp:
+			v = x.X
+		case *ssa.Alloc:
+			for _, r := range core.Referrers(x) {
+				if st, ok := r.(*ssa.Store); ok && st.Addr == x && st.Val == ssa.Value(mk) {
+					return true
+				}
+			}
+			return false
+		default:
+			return false
+		}
+	}
+	return false
+}
+
+// loopBoundLen: b lies in a loop whose exit test compares a counter with len(X); returns X.
+func loopBoundLen(fn *ssa.Function, b *ssa.BasicBlock) ssa.Value {
+	for h, body := range core.LoopBodies(fn) {
+		if !body[b] {
+			continue
+		}
+		iff := core.IfOf(h)
+		if iff == nil {
+			continue
+		}
+		bo, ok := iff.Cond.(*ssa.BinOp)
+		if !ok || bo.Op != token.LSS {
+			continue
+		}
+		if c, ok := bo.Y.(*ssa.Call); ok {
+			if bi, ok := c.Call.Value.(*ssa.Builtin); ok && bi.Name() == "len" {
+				return c.Call.Args[0]
+			}
+		}
+	}
+	return nil
 }
 
 // ---------------------------------------------------------------------------------------------
@@ -845,11 +1123,27 @@ func ruleTStamp(p *core.Program) []core.Obligation {
 		names = append(names, n)
 	}
 	sort.Strings(names)
-	for _, name := range names {
-		k := ks[name]
-		key := "kernel " + name + " stamps its result with the step time"
+	// fromStep: the value is computed from FunctionArgs.StepTime (in a helper: possibly through a parameter
+	// whose argument is)
+	fromStep := func(val ssa.Value, argOK func(*ssa.Parameter) bool) bool {
+		ok := false
+		core.BackSlice(val, func(y ssa.Value) bool {
+			if n, f2, _, isField := core.FieldRef(y); isField && n != nil && n.Obj().Name() == "FunctionArgs" && f2 == "StepTime" {
+				ok = true
+			}
+			if prm, isParam := y.(*ssa.Parameter); isParam && argOK != nil && argOK(prm) {
+				ok = true
+			}
+			return true
+		})
+		return ok
+	}
+	// checkRets examines the samples k returns; a sample built by a package-local helper is examined there
+	var checkRets func(k *ssa.Function, argOK func(*ssa.Parameter) bool, depth int) (string, string, int)
+	checkRets = func(k *ssa.Function, argOK func(*ssa.Parameter) bool, depth int) (string, string, int) {
 		status, detail := core.Held, ""
 		nret := 0
+		zero, stamped := "", 0
 		core.EachInstr(k, func(b *ssa.BasicBlock, i int, ins ssa.Instruction) {
 			ret, ok := ins.(*ssa.Return)
 			if !ok || len(ret.Results) != 1 || status != core.Held {
@@ -861,7 +1155,30 @@ func ruleTStamp(p *core.Program) []core.Obligation {
 					continue
 				}
 				if c, isConst := v.(*ssa.Const); isConst && c.Value == nil {
-					continue // the zero placeholder of a kernel that is never evaluated (scalar is handled by the operator)
+					zero = p.Pos(ret.Pos()) // the zero sample: fine for a placeholder kernel that returns nothing else
+					continue
+				}
+				if call, isCall := v.(*ssa.Call); isCall && depth < 3 {
+					h := call.Call.StaticCallee()
+					if h != nil && h.Blocks != nil && p.InRepo(h) && types.Identical(h.Signature.Results().At(0).Type(), k.Signature.Results().At(0).Type()) {
+						c := call
+						st, d, n := checkRets(h, func(prm *ssa.Parameter) bool {
+							for ai, hp := range h.Params {
+								if hp == prm && ai < len(c.Call.Args) {
+									return fromStep(c.Call.Args[ai], argOK)
+								}
+							}
+							return false
+						}, depth+1)
+						if n == 0 && st == core.Held {
+							st, d = core.Undecided, "no return found in helper "+h.Name()
+						}
+						if st != core.Held {
+							status, detail = st, d
+							return
+						}
+						continue
+					}
 				}
 				a, ok := core.Deref(v).(*ssa.Alloc)
 				if !ok {
@@ -882,25 +1199,35 @@ func ruleTStamp(p *core.Program) []core.Obligation {
 							}
 							stores++
 							if _, f, _, ok := core.FieldRef(addr); ok && f == "T" {
-								core.BackSlice(x.Val, func(y ssa.Value) bool {
-									if n, f2, _, ok := core.FieldRef(y); ok && n != nil && n.Obj().Name() == "FunctionArgs" && f2 == "StepTime" {
-										tOK = true
-									}
-									return true
-								})
+								if fromStep(x.Val, argOK) {
+									tOK = true
+								}
 							}
 						}
 					}
 				}
 				walk(a)
 				if stores == 0 {
-					continue // the zero placeholder of a kernel that is never evaluated (scalar is handled by the operator)
+					zero = p.Pos(ret.Pos())
+					continue
 				}
+				stamped++
 				if !tOK {
 					status, detail = core.Violated, "a result is stamped with something other than the step time (e.g. a sample's own timestamp): range results get off-grid and repeated timestamps"
 				}
 			}
 		})
+		// the zero sample is the placeholder of a kernel that is never evaluated (scalar is handled by the
+		// operator); next to real results it is a result with timestamp 0
+		if status == core.Held && zero != "" && (stamped > 0 || depth > 0) {
+			status, detail = core.Violated, "the return at "+zero+" hands back the zero sample (timestamp 0, value 0) where other paths return a stamped sample: it is neither the InvalidSample sentinel ('no result') nor stamped with the step time, so the operator emits a point at timestamp 0"
+		}
+		return status, detail, nret
+	}
+	for _, name := range names {
+		k := ks[name]
+		key := "kernel " + name + " stamps its result with the step time"
+		status, detail, nret := checkRets(k, nil, 0)
 		if nret == 0 && status == core.Held {
 			status, detail = core.Undecided, "no return found"
 		}
@@ -1276,6 +1603,40 @@ func ruleSlabCap(p *core.Program) []core.Obligation {
 func ruleHashSame(p *core.Program) []core.Obligation {
 	const rule = "R-HASHSAME"
 	var obs []core.Obligation
+	isHashCall := func(c *ssa.CallCommon) bool {
+		switch core.CalleeName(c) {
+		case "(" + pkgLabels + ".Labels).Bytes", "(" + pkgLabels + ".Labels).Hash":
+			return true
+		}
+		return false
+	}
+	// hashing helpers: repository functions that hash one of their label-set parameters (index of the argument)
+	hashers := map[*ssa.Function]int{}
+	for round := 0; round < 3; round++ {
+		for _, fn := range p.Funcs {
+			if _, done := hashers[fn]; done || fn.Parent() != nil {
+				continue
+			}
+			f := fn
+			core.EachInstr(fn, func(_ *ssa.BasicBlock, _ int, ins ssa.Instruction) {
+				call, ok := ins.(*ssa.Call)
+				if !ok {
+					return
+				}
+				var hashedArg ssa.Value
+				if isHashCall(&call.Call) {
+					hashedArg = call.Call.Args[0]
+				} else if idx, ok := hashers[call.Call.StaticCallee()]; ok && idx < len(call.Call.Args) {
+					hashedArg = call.Call.Args[idx]
+				}
+				for i, prm := range f.Params {
+					if hashedArg == prm {
+						hashers[f] = i
+					}
+				}
+			})
+		}
+	}
 	for _, fn := range p.Funcs {
 		if !strings.HasPrefix(core.Rel(fn.Pkg.Pkg.Path()), "execution") {
 			continue
@@ -1288,9 +1649,10 @@ func ruleHashSame(p *core.Program) []core.Obligation {
 			if !ok {
 				return
 			}
-			switch core.CalleeName(&call.Call) {
-			case "(" + pkgLabels + ".Labels).Bytes", "(" + pkgLabels + ".Labels).Hash":
+			if isHashCall(&call.Call) {
 				hashed = append(hashed, call.Call.Args[0])
+			} else if idx, ok := hashers[call.Call.StaticCallee()]; ok && idx < len(call.Call.Args) {
+				hashed = append(hashed, call.Call.Args[idx])
 			}
 			if bi, ok := call.Call.Value.(*ssa.Builtin); ok && bi.Name() == "append" {
 				if s, ok := call.Type().Underlying().(*types.Slice); ok && isLabelsType(s.Elem()) {
